@@ -345,7 +345,12 @@ class Check:
             if self.prop not in f['properties'] or not f.get('witness'):
                 continue
             path = os.path.join(VERIF, f['witness'])
-            r = lyrun(lyrun_bin, path, ['--steps', '5000000'], timeout=60, cwd=os.path.dirname(path))
+            if f.get('witness_stdin'):
+                # a prompt session: the witness is fed to the interactive prompt line by line
+                r = lyrun(lyrun_bin, None, ['--steps', '5000000'], stdin_text=open(path).read(), timeout=60,
+                          cwd=os.path.dirname(path))
+            else:
+                r = lyrun(lyrun_bin, path, ['--steps', '5000000'], timeout=60, cwd=os.path.dirname(path))
             exp = f.get('witness_expect', {})
             still = True
             if 'outcome' in exp and not re.search(exp['outcome'], r.outcome or ''):
